@@ -2,14 +2,18 @@
 (* JUDGE of C43.  Observation = case (configuration, path) + what harness/behaviourlab.cxx (mode jacobian) parsed from
    the reports of the generated code:
      blocks   sequence of [blk (name df<X>_dd<Y>), eq (X), var (Y), cls (best class over the perturbations of the worst
-              mismatch of the block over every Newton iteration of every step), reports]
+              mismatch of the block over every judged Newton iteration of every step), reports (iterations in which the
+              block was printed, i.e. differed at all), bad (iterations in which its mismatch class exceeds BlockClass,
+              smallest count over the perturbations)]
      steps / steps_ok  steps of the path / steps integrated before the first failure; active (an inelastic flow took place)
      unparsed reports the harness could not read
    A probe (configuration with pot = "Probe") is a hand-written behaviour whose jacobian is deliberately wrong: it must
    be rejected, otherwise the whole machinery proves nothing. *)
 EXTENDS Bricks, Judge
 Check(name, b) == IF b THEN {} ELSE {name}
-Inexact(o) == {i \in 1..Len(o.blocks) : o.blocks[i].cls > BlockClass}
+\* a block is inexact when it is off at several iterates and at a sizeable share of the iterates where it is compared
+Inexact(o) == {i \in 1..Len(o.blocks) : o.blocks[i].cls > BlockClass /\ o.blocks[i].bad >= MinInexactIterations
+                                         /\ InexactShare * o.blocks[i].bad >= o.blocks[i].reports}
 FailsOf(o) ==
   IF o.cfg.pot = "Probe"
   THEN Check("selftest:wrong-jacobian-not-reported", \E i \in Inexact(o) : o.blocks[i].blk = "dfp_ddeel")
